@@ -32,7 +32,7 @@ type Server struct {
 	settings              serverSettings
 	settingsMu            sync.RWMutex
 	supportsConfiguration bool
-	payeeTemplatesCache   sync.Map // map[protocol.DocumentURI]map[string][]analyzer.PostingTemplate
+	payeeTemplatesCache   sync.Map // map[protocol.DocumentURI]cachedPayeeTemplates
 	publishMu             sync.Mutex
 	analysisSeq           map[protocol.DocumentURI]uint64 // guarded by publishMu
 	configMu              sync.Mutex
